@@ -27,7 +27,7 @@ def load(tap=False):
     return mm, Py(pkg_root(), mm, tap=tap)
 
 
-def select_roots(py, i, n, kinds=("S", "REQ", "RESP", "NOTIF", "ALIAS", "AND")):
+def select_roots(py, i, n, kinds=("S", "REQ", "RESP", "NOTIF", "ALIAS", "AND", "ERR")):
     roots = py.roots(kinds)
     fo = focus()
     if fo is not None:
